@@ -4,7 +4,7 @@ From Coq Require Import ZArith List String Bool.
 From Verif Require Import Base.Wire.
 From Verif Require Import Run.RunC01 Run.RunC02 Run.RunC03 Run.RunC04 Run.RunC05 Run.RunC06 Run.RunC07
   Run.RunC08 Run.RunC09 Run.RunC10 Run.RunC11 Run.RunC12 Run.RunC13 Run.RunC14 Run.RunC15 Run.RunC16
-  Run.RunC17 Run.RunC18 Run.RunC19 Run.RunC20.
+  Run.RunC17 Run.RunC18 Run.RunC19 Run.RunC20 Run.RunTj.
 Import ListNotations.
 
 Definition dispatch (vs : list V) : list V :=
@@ -31,6 +31,7 @@ Definition dispatch (vs : list V) : list V :=
     else if String.eqb op "c18" then run_c18 rest
     else if String.eqb op "c19" then run_c19 rest
     else if String.eqb op "c20" then run_c20 rest
+    else if String.eqb op "tj" then run_tj rest
     else [verr "unknown-op"]
   | [] => [verr "badline"]
   end.
